@@ -15,7 +15,7 @@ REAL helper (register_clkin / create_clkout / do_finalize, which calls compute_c
 
 Exact rationals with the relative guard band eps = 1e-9 of DESIGN 4b (widened for (i), narrowed for (ii))."""
 import fsmc  # noqa: F401
-import itertools, json
+import itertools, json, time
 from fractions import Fraction as Fr
 
 from fsmc.design import MachineryError
@@ -115,17 +115,35 @@ def uniq(xs):
     return out
 
 
-class Grid:
-    """sizes per tier: typical inputs inside the declared range (both ends and the two points just outside are always
-    added), output grid sizes for n = 1, 2, 3 and n >= 4 outputs, and `cut`: requests with >= 3 outputs are only put at
-    input frequencies <= cut (a refused many-output request at a high input frequency costs the helper 0.2-0.4 s)"""
-    SIZES = dict(quick=dict(n_in=2, n1=7, n2=4, n3=3, nm=2, cut2=450e6, cut=260e6),
-                 thorough=dict(n_in=8, n1=16, n2=8, n3=4, nm=2, cut2=None, cut=450e6))
+# Grid sizes.  n_in: typical inputs strictly inside the declared range (both ends and the two points 0.1 % outside are
+# always added); n1/n2/n3/nm: output grid sizes for 1, 2, 3 and >= 4 outputs; cut1: inputs above it are "light" (single
+# output requests on a 4-point output grid with margins {1e-2, 0} only); cut2 / cut3: 2-output / >=3-output requests are
+# only put at inputs <= cut.  The cuts exist because a REFUSED request costs the helper a complete scan whose length
+# grows with the input frequency (S7PLL 0.2-0.4 s, ECP5 0.25 s, USPMMCM 0.7 s, Intel 0.4-5 s at the top of the range).
+BASE = dict(quick=dict(n_in=2, n1=7, n2=4, n3=3, nm=2, cut1=None, cut2=450e6, cut3=260e6, m2="few", m3="few", mm=(1e-2,)),
+            thorough=dict(n_in=8, n1=16, n2=8, n3=4, nm=2, cut1=None, cut2=None, cut3=450e6, m2="all", m3="all", mm=(1e-2, 1e-4)))
+SPEC = {
+    "S6DCM":    dict(quick=dict(n_in=4, n1=12), thorough=dict(n_in=12, n1=19)),
+    "iCE40PLL": dict(quick=dict(n_in=6, n1=12), thorough=dict(n_in=14, n1=19)),
+    # fractional CLKOUT0: every refused (D, M) pair costs 1016 more divider tests
+    "S7MMCM":   dict(quick=dict(n2=3, n3=2, cut2=260e6, cut3=130e6), thorough=dict(n2=6, cut3=260e6)),
+    "USPMMCM":  dict(quick=dict(n_in=1, n1=3, n2=2, n3=2, nm=1, cut1=130e6, m2="three", m3="two"),
+                     thorough=dict(n_in=4, n1=8, n2=4, n3=3, nm=2, cut1=260e6, cut3=130e6, m2="few", m3="few", mm=(1e-2,))),
+    "ECP5PLL":  dict(quick=dict(), thorough=dict(n_in=6, n2=6)),
+    "NXPLL":    dict(quick=dict(n3=2), thorough=dict(n_in=6, n2=6, n3=3)),
+    "GW5APLL":  dict(quick=dict(n3=2, cut1=260e6), thorough=dict(n_in=6, n2=6, n3=3, cut1=260e6)),
+}
+# IntelClocking.compute_config never exits early (it ranks every valid (N, M)): 0.05-0.25 s per request up to 100 MHz,
+# 0.4 s (Cyclone) to 5 s (Stratix V, 800 MHz) at the top of the input range.
+INTEL = dict(quick=dict(n_in=2, n1=5, n2=3, n3=2, nm=2, cut1=130e6, m2="three", m3="two"),
+             thorough=dict(n_in=5, n1=12, n2=5, n3=3, nm=2, cut1=210e6, cut3=130e6, m2="few", m3="few", mm=(1e-2,)))
 
-    def __init__(self, fam, pll, tier, sizes=None):
+
+class Grid:
+    def __init__(self, fam, pll, tier):
         self.fam, self.tier = fam, tier
-        z = dict(self.SIZES[tier])
-        z.update(sizes or {})
+        z = dict(BASE[tier])
+        z.update((INTEL if isinstance(fam, F.Intel) else SPEC.get(fam.name, {})).get(tier, {}))
         self.z = z
         probe = fam.model(pll, Req(100e6, [(100e6, 0, 0)]))
         dv = probe.outs[0].divs
@@ -139,14 +157,15 @@ class Grid:
         self.inputs = uniq([in_rng[0] * (1 - 1e-3), in_rng[0]] + sorted(core_in) + [in_rng[1], in_rng[1] * (1 + 1e-3)])
         cand = [f for f in OUT_ROUND if lo_o < f < hi_o]
         awk = [f for f in OUT_AWKWARD if lo_o < f < hi_o]
+        typ = [f for f in OUT_TYPICAL if lo_o < f < hi_o]
         vmax = float(probe.src_rng[1])
         ends = [lo_o * (1 - 1e-3), lo_o, hi_o, hi_o * (1 + 1e-3)] + [x for x in (vmax / 2, vmax / 3) if lo_o < x < hi_o]
         self.out1 = uniq(ends + awk[:max(1, z["n1"] // 5)] + spread(cand, z["n1"]))
-        typ = [f for f in OUT_TYPICAL if lo_o < f < hi_o]
         self.out2 = uniq(awk[:1] + typ[:z["n2"] - 2] + [hi_o])
         self.out3 = uniq(awk[:1] + typ[:z["n3"] - 1])
         self.outm = uniq(typ[:z["nm"]])
-        self.nmax = pll.nclkouts_max
+        self.outl = uniq(awk[:1] + typ[:2] + [hi_o])
+        self.nmax = min(pll.nclkouts_max, 7)
 
     def input_range(self, pll):
         for a in ("clkin_freq_range", "clki_freq_range"):
@@ -165,12 +184,14 @@ class Grid:
         if n == 1:
             return [(m,) for m in MARGINS]
         if n == 2:
-            if self.tier == "thorough":
-                return list(itertools.product(MARGINS, repeat=2))
-            return [(0, 0), (1e-4, 1e-4), (1e-2, 1e-2), (1e-2, 0), (0, 1e-2)]
+            return {"all": list(itertools.product(MARGINS, repeat=2)),
+                    "few": [(0, 0), (1e-4, 1e-4), (1e-2, 1e-2), (1e-2, 0), (0, 1e-2)],
+                    "three": [(1e-2, 1e-2), (1e-2, 0), (0, 1e-2)]}[self.z["m2"]]
         if n == 3:
-            return [(1e-2, 1e-2, 1e-2), (1e-4, 1e-4, 1e-4), (1e-2, 1e-4, 0)] + ([(0, 0, 0), (0, 1e-4, 1e-2)] if self.tier == "thorough" else [])
-        return [tuple([1e-2] * n)] + ([tuple([1e-4] * n)] if self.tier == "thorough" else [])
+            return {"all": [(1e-2, 1e-2, 1e-2), (1e-4, 1e-4, 1e-4), (1e-2, 1e-4, 0), (0, 0, 0), (0, 1e-4, 1e-2)],
+                    "few": [(1e-2, 1e-2, 1e-2), (1e-4, 1e-4, 1e-4), (1e-2, 1e-4, 0)],
+                    "two": [(1e-2, 1e-2, 1e-2), (1e-2, 1e-4, 0)]}[self.z["m3"]]
+        return [tuple([m] * n) for m in self.z["mm"]]
 
     def phase_tuples(self, n):
         if not self.fam.has_phase:
@@ -189,12 +210,18 @@ class Grid:
         return {1: self.out1, 2: self.out2, 3: self.out3}.get(n, self.outm)
 
     def requests(self):
+        z = self.z
         for fin in self.inputs:
             first = True
+            if z["cut1"] is not None and fin > z["cut1"]:
+                for f in self.outl:
+                    for m in (1e-2, 0):
+                        yield Req(fin, [(f, 0, m)])
+                continue
             for n in self.counts():
-                if n >= 3 and self.z["cut"] is not None and fin > self.z["cut"]:
+                if n >= 3 and z["cut3"] is not None and fin > z["cut3"]:
                     continue
-                if n == 2 and self.z["cut2"] is not None and fin > self.z["cut2"]:
+                if n == 2 and z["cut2"] is not None and fin > z["cut2"]:
                     continue
                 for fs in itertools.product(self.out_grid(n), repeat=n):
                     for ms in self.margin_tuples(n):
@@ -204,43 +231,23 @@ class Grid:
                             yield Req(fin, list(zip(fs, ps, ms)), flags)
 
 
-class IntelGrid(Grid):
-    """IntelClocking.compute_config costs 0.05-2 s per request (512 C values per (N, M) pair, no early exit): smaller
-    grids, and the interior input points stay <= 130 MHz (the N loop grows with fin / 5 MHz)"""
-    SIZES = dict(quick=dict(n_in=2, n1=5, n2=3, n3=2, nm=2, cut2=130e6, cut=130e6),
-                 thorough=dict(n_in=4, n1=10, n2=5, n3=3, nm=2, cut2=None, cut=130e6))
-
-    def __init__(self, fam, pll, tier):
-        Grid.__init__(self, fam, pll, tier)
-        self.nmax = min(self.nmax, 5)
-
-    def counts(self):
-        return [1, 2, 3] if self.tier == "quick" else [1, 2, 3, self.nmax]
-
-    def margin_tuples(self, n):
-        if n == 2 and self.tier == "quick":
-            return [(1e-2, 1e-2), (1e-4, 0), (0, 1e-2)]
-        if n >= 3:
-            return [tuple([1e-2] * n), tuple([1e-4] * (n - 1) + [0])]
-        return Grid.margin_tuples(self, n)
-
-
 class GowinGrid(Grid):
     """GW1NPLL/GW2APLL: structured requests (outputs that are legal exact ratios of the highest one, in every order),
     plus a small unstructured Cartesian block that only the soundness oracle judges"""
-    PRIM = dict(quick=[24e6, 48e6, 120e6, 25e6], thorough=[12e6, 24e6, 48e6, 96e6, 120e6, 240e6, 25e6, 27e6, 400e6])
+    PRIM = dict(quick=[24e6, 48e6, 120e6], thorough=[12e6, 24e6, 48e6, 96e6, 120e6, 240e6, 25e6, 27e6, 400e6])
 
     def requests(self):
         prim = self.PRIM[self.tier]
         ins = [f for f in self.inputs if f <= 200e6][:(4 if self.tier == "quick" else 8)]
+        quick = self.tier == "quick"
         for fin in ins:
             for P in prim:
                 for m in MARGINS:
                     for p in (0, 90):
                         yield Req(fin, [(P, p, m)])
-                for k in (1, 2, 3, 4, 6, 8, 5, 130):
+                for k in ((1, 2, 3, 4, 5) if quick else (1, 2, 3, 4, 6, 8, 5, 130)):
                     for ph in ((0, 0), (0, 90), (90, 0), (90, 90)):
-                        for ms in ((1e-2, 1e-2), (1e-4, 1e-4), (0, 0), (1e-2, 1e-4)):
+                        for ms in (((1e-2, 1e-2), (0, 0), (1e-2, 1e-4)) if quick else ((1e-2, 1e-2), (1e-4, 1e-4), (0, 0), (1e-2, 1e-4))):
                             yield Req(fin, [(P, ph[0], ms[0]), (P / k, ph[1], ms[1])])
                             yield Req(fin, [(P / k, ph[1], ms[1]), (P, ph[0], ms[0])])
                 for ks in ((1, 3, 2), (3, 1, 4), (2, 3, 1), (1, 1, 3), (1, 3, 3), (1, 2, 4)):
@@ -255,17 +262,8 @@ class GowinGrid(Grid):
 
 
 def grid_for(fam, pll, tier):
-    if isinstance(fam, F.Intel):
-        return IntelGrid(fam, pll, tier)
     if isinstance(fam, F.Gowin1):
         return GowinGrid(fam, pll, tier)
-    if isinstance(fam, F.XilinxUSPMMCM):
-        # a refused request costs this helper 0.7 s
-        return Grid(fam, pll, tier, sizes=dict(quick=dict(n_in=1, n1=5, n2=3, n3=2, cut2=130e6, cut=130e6),
-                                               thorough=dict(n_in=4, n1=10, n2=5, n3=3, cut2=450e6, cut=260e6))[tier])
-    if getattr(pll, "clkout0_divide_range", None) is not None:
-        # fractional CLKOUT0: every refused (D, M) pair costs 1016 more divider tests
-        return Grid(fam, pll, tier, sizes=dict(quick=dict(n2=3, n3=2, cut2=260e6, cut=130e6), thorough=dict(cut2=None, cut=260e6))[tier])
     return Grid(fam, pll, tier)
 
 
@@ -360,6 +358,7 @@ def evaluate(fam, variant, req):
 
 def run_config(cfg, seed, tier):
     name, famname, vi = cfg
+    cpu0 = time.process_time()
     fam = families()[famname]
     variant = fam.variants()[vi]
     probe = fam.new(variant[1])
@@ -402,7 +401,7 @@ def run_config(cfg, seed, tier):
                                detail=dict(family=famname, variant=variant[0], request=req.to_json(), count=per_rule[rule],
                                            config=res["config"], refusal=res["exc"], extra=extra)))
     return dict(cfg=name, exhaustive=True, violations=violations, evaluations=evaluations, distinct=distinct,
-                sample=sample[1] if sample else None, cover=cover,
+                sample=sample[1] if sample else None, cover=cover, cpu_s=round(time.process_time() - cpu0, 1),
                 grid=dict(inputs=grid.inputs, out1=grid.out1, out2=grid.out2, out3=grid.out3, outmax=grid.outm,
                           noutputs=grid.counts(), requests=len(keys)))
 
